@@ -559,7 +559,7 @@ pub fn run_c17(ctx: &Ctx) -> Report {
                         shape.push_str("select@@ ");
                     }
                     4 => {
-                        cv.push(MCmd::FieldList(b"t\0".to_vec()), None);
+                        cv.push(MCmd::FieldList(field_list_arg(rng)), None);
                         shape.push_str("fieldlist ");
                     }
                     _ => {
